@@ -9,6 +9,7 @@ import (
 	"strconv"
 	"strings"
 	"sync"
+	"sync/atomic"
 	"time"
 
 	"github.com/aperturerobotics/bifrost/pubsub"
@@ -60,17 +61,38 @@ func pubIndexOfData(inner []byte) (int, bool) {
 	return n, true
 }
 
+type mev struct {
+	kind    string // pub down up
+	a, b, c int    // pub: origin, channel; down/up: u, v, link id
+}
+
+func (e mev) term() string {
+	switch e.kind {
+	case "pub":
+		return hx.App("EPub", hx.Nat(e.a), hx.Nat(e.b))
+	case "down":
+		return hx.App("EDown", hx.Nat(e.a), hx.Nat(e.b), hx.Nat(e.c))
+	default:
+		return hx.App("EUp", hx.Nat(e.a), hx.Nat(e.b), hx.Nat(e.c))
+	}
+}
+
+func (e mev) String() string { return fmt.Sprintf("%s(%d,%d,%d)", e.kind, e.a, e.b, e.c) }
+
 type mesh struct {
 	n     int
 	kind  string
-	edges [][2]int
+	links [][3]int // (u, v, link id); several links may join the same two nodes
 	subs  [][2]int // (node, channel)
-	pubs  [][2]int // (origin, channel)
-	order []int    // interleaving of setup operations: index into setup ops
-	early int      // number of setup operations performed before Execute is started
+	evs   []mev
+	order []int // interleaving of setup operations: index into setup ops
+	early int   // number of setup operations performed before Execute is started
 
-	handed  [][]int       // per publish, per node
-	wire    [][][3]int    // per publish: (u, v, count)
+	// per publish
+	pubs    [][2]int
+	upAt    [][][3]int // links up when the publish was issued
+	handed  [][]int
+	wire    [][][4]int // (u, v, link id, count)
 	problem string
 }
 
@@ -79,16 +101,18 @@ func genMesh(c *hx.Ctx) *mesh {
 	m := &mesh{n: 3 + rng.Intn(4)}
 	n := m.n
 	has := map[[2]int]bool{}
-	add := func(a, b int) {
+	lid := 0
+	add := func(a, b int, parallel bool) {
 		if a == b {
 			return
 		}
 		if a > b {
 			a, b = b, a
 		}
-		if !has[[2]int{a, b}] {
+		if !has[[2]int{a, b}] || parallel {
 			has[[2]int{a, b}] = true
-			m.edges = append(m.edges, [2]int{a, b})
+			lid++
+			m.links = append(m.links, [3]int{a, b, lid})
 		}
 	}
 	perm := rng.Perm(n)
@@ -96,31 +120,41 @@ func genMesh(c *hx.Ctx) *mesh {
 	case 0:
 		m.kind = "line"
 		for i := 0; i+1 < n; i++ {
-			add(perm[i], perm[i+1])
+			add(perm[i], perm[i+1], false)
 		}
 	case 1:
 		m.kind = "star"
 		for i := 1; i < n; i++ {
-			add(perm[0], perm[i])
+			add(perm[0], perm[i], false)
 		}
 	case 2:
 		m.kind = "ring"
 		for i := 0; i < n; i++ {
-			add(perm[i], perm[(i+1)%n])
+			add(perm[i], perm[(i+1)%n], false)
 		}
 	case 3:
 		m.kind = "tree"
 		for i := 1; i < n; i++ {
-			add(perm[i], perm[rng.Intn(i)])
+			add(perm[i], perm[rng.Intn(i)], false)
 		}
 	default:
 		m.kind = "random"
 		for i := 1; i < n; i++ {
-			add(perm[i], perm[rng.Intn(i)])
+			add(perm[i], perm[rng.Intn(i)], false)
 		}
 		extra := 1 + rng.Intn(n)
 		for k := 0; k < extra; k++ {
-			add(rng.Intn(n), rng.Intn(n))
+			add(rng.Intn(n), rng.Intn(n), false)
+		}
+	}
+	// parallel links: a second (sometimes third) link between some connected pairs
+	if rng.Intn(2) == 0 {
+		m.kind += "+parallel"
+		np := 1 + rng.Intn(2)
+		base := len(m.links)
+		for k := 0; k < np; k++ {
+			e := m.links[rng.Intn(base)]
+			add(e[0], e[1], true)
 		}
 	}
 	// subscriber subsets for two channels
@@ -144,16 +178,79 @@ func genMesh(c *hx.Ctx) *mesh {
 	if len(m.subs) == 0 {
 		m.subs = append(m.subs, [2]int{0, 0})
 	}
-	np := 2 + rng.Intn(3)
-	for i := 0; i < np; i++ {
+	// history: publishes interleaved with links going down and (re)appearing
+	up := map[int][3]int{}
+	for _, l := range m.links {
+		up[l[2]] = l
+	}
+	var downed [][3]int
+	pub := func() {
 		if rng.Intn(5) != 0 {
 			s := m.subs[rng.Intn(len(m.subs))]
-			m.pubs = append(m.pubs, [2]int{s[0], s[1]})
+			m.evs = append(m.evs, mev{"pub", s[0], s[1], 0})
 		} else {
-			m.pubs = append(m.pubs, [2]int{rng.Intn(n), rng.Intn(2)})
+			m.evs = append(m.evs, mev{"pub", rng.Intn(n), rng.Intn(2), 0})
 		}
 	}
-	m.order = rng.Perm(len(m.edges) + len(m.subs))
+	pubNear := func(l [3]int) {
+		// publish from either end of the link that just changed
+		o := l[rng.Intn(2)]
+		m.evs = append(m.evs, mev{"pub", o, rng.Intn(2), 0})
+	}
+	steps := 2 + rng.Intn(4)
+	for i := 0; i < steps; i++ {
+		switch x := rng.Intn(10); {
+		case x < 5 || len(up) == 0:
+			pub()
+		case x < 8:
+			// take a link down: prefer one of a parallel pair, else any
+			var cands [][3]int
+			for _, l := range up {
+				for _, o := range up {
+					if o[2] != l[2] && o[0] == l[0] && o[1] == l[1] {
+						cands = append(cands, l)
+					}
+				}
+			}
+			if len(cands) == 0 || rng.Intn(3) == 0 {
+				cands = cands[:0]
+				for _, l := range up {
+					cands = append(cands, l)
+				}
+			}
+			sort.Slice(cands, func(a, b int) bool { return cands[a][2] < cands[b][2] })
+			l := cands[rng.Intn(len(cands))]
+			delete(up, l[2])
+			downed = append(downed, l)
+			m.evs = append(m.evs, mev{"down", l[0], l[1], l[2]})
+			pubNear(l)
+		default:
+			// a link comes up: a downed one again (same tuple), or a new parallel/new link
+			var l [3]int
+			if len(downed) > 0 && rng.Intn(2) == 0 {
+				k := rng.Intn(len(downed))
+				l = downed[k]
+				downed = append(downed[:k], downed[k+1:]...)
+			} else {
+				a, b := rng.Intn(n), rng.Intn(n)
+				if a == b {
+					b = (a + 1) % n
+				}
+				if a > b {
+					a, b = b, a
+				}
+				lid++
+				l = [3]int{a, b, lid}
+			}
+			up[l[2]] = l
+			m.evs = append(m.evs, mev{"up", l[0], l[1], l[2]})
+			pubNear(l)
+		}
+	}
+	if m.evs[len(m.evs)-1].kind != "pub" {
+		pub()
+	}
+	m.order = rng.Perm(len(m.links) + len(m.subs))
 	m.early = rng.Intn(len(m.order) + 1)
 	return m
 }
@@ -167,21 +264,21 @@ func (m *mesh) isSub(v, ch int) bool {
 	return false
 }
 
-func (m *mesh) adj() [][]int {
-	a := make([][]int, m.n)
-	for _, e := range m.edges {
+func adjOf(n int, links [][3]int) [][]int {
+	a := make([][]int, n)
+	for _, e := range links {
 		a[e[0]] = append(a[e[0]], e[1])
 		a[e[1]] = append(a[e[1]], e[0])
 	}
 	return a
 }
 
-// reachable: nodes connected to origin by a path whose nodes after the origin subscribe to ch
-func (m *mesh) reachable(origin, ch int) []bool {
+// reachable: nodes connected to origin by a path over the given links whose nodes after the origin subscribe to ch
+func (m *mesh) reachable(links [][3]int, origin, ch int) []bool {
 	seen := make([]bool, m.n)
 	seen[origin] = true
 	q := []int{origin}
-	adj := m.adj()
+	adj := adjOf(m.n, links)
 	for len(q) > 0 {
 		u := q[0]
 		q = q[1:]
@@ -194,8 +291,6 @@ func (m *mesh) reachable(origin, ch int) []bool {
 	}
 	return seen
 }
-
-func (m *mesh) acyclic() bool { return len(m.edges) == m.n-1 }
 
 func runMesh(m *mesh, keys []keyInfo) {
 	ctx, cancel := context.WithCancel(context.Background())
@@ -213,32 +308,87 @@ func runMesh(m *mesh, keys []keyInfo) {
 	var mu sync.Mutex
 	lastEvent := time.Now()
 	handed := map[[2]int]int{} // (publish, node) -> handler invocations
-	linkCounts := map[[2]int]map[int]int{}
-	var conns []net.Conn
+	linkCounts := map[[3]int]map[int]int{}
+	conns := map[int][2]net.Conn{}
 	defer func() {
 		for _, c := range conns {
-			_ = c.Close()
+			_ = c[0].Close()
+			_ = c[1].Close()
 		}
 	}()
+	up := map[int][3]int{}
+	upList := func() [][3]int {
+		var out [][3]int
+		for _, l := range up {
+			out = append(out, l)
+		}
+		sort.Slice(out, func(a, b int) bool { return out[a][2] < out[b][2] })
+		return out
+	}
+	linkUp := func(l [3]int) {
+		u, v, lid := l[0], l[1], l[2]
+		a, b := net.Pipe()
+		conns[lid] = [2]net.Conn{a, b}
+		mu.Lock()
+		if linkCounts[[3]int{u, v, lid}] == nil {
+			linkCounts[[3]int{u, v, lid}] = map[int]int{}
+			linkCounts[[3]int{v, u, lid}] = map[int]int{}
+		}
+		cu := &countingConn{Conn: a, mu: &mu, counts: linkCounts[[3]int{u, v, lid}], last: &lastEvent}
+		cv := &countingConn{Conn: b, mu: &mu, counts: linkCounts[[3]int{v, u, lid}], last: &lastEvent}
+		mu.Unlock()
+		up[lid] = l
+		nodes[u].AddPeerStream(pubsub.PeerLinkTuple{PeerID: keys[v].id, LinkID: uint64(lid)}, true, &fakeMS{conn: cu, pid: keys[v].id})
+		nodes[v].AddPeerStream(pubsub.PeerLinkTuple{PeerID: keys[u].id, LinkID: uint64(lid)}, false, &fakeMS{conn: cv, pid: keys[u].id})
+	}
+	hasTuple := func(node int, peer int, lid int) bool {
+		s := nodes[node].VerifSnapshot()
+		for _, t := range append(s.Started, s.Pending...) {
+			if t.PeerID == keys[peer].id && t.LinkID == uint64(lid) {
+				return true
+			}
+		}
+		return false
+	}
+	// every subscription is announced over every link that is up, every session is executing
+	waitAnnounced := func() bool {
+		return waitFor(8*time.Second, 2*time.Millisecond, func() bool {
+			snaps := make([]*floodsub.VerifSnapshot, n)
+			for u := 0; u < n; u++ {
+				snaps[u] = nodes[u].VerifSnapshot()
+				if snaps[u].IncSessions != 0 || len(snaps[u].Pending) != 0 {
+					return false
+				}
+			}
+			for _, l := range up {
+				for _, d := range [][2]int{{l[0], l[1]}, {l[1], l[0]}} {
+					u, v := d[0], d[1]
+					for ch := 0; ch < 2; ch++ {
+						if !m.isSub(v, ch) {
+							continue
+						}
+						found := false
+						for _, t := range snaps[u].PeerChannels["ch"+strconv.Itoa(ch)] {
+							if t.PeerID == keys[v].id && t.LinkID == uint64(l[2]) {
+								found = true
+							}
+						}
+						if !found {
+							return false
+						}
+					}
+				}
+			}
+			return true
+		})
+	}
 
 	doSetup := func(op int) {
-		if op < len(m.edges) {
-			e := m.edges[op]
-			u, v := e[0], e[1]
-			a, b := net.Pipe()
-			conns = append(conns, a, b)
-			mu.Lock()
-			linkCounts[[2]int{u, v}] = map[int]int{}
-			linkCounts[[2]int{v, u}] = map[int]int{}
-			cu := &countingConn{Conn: a, mu: &mu, counts: linkCounts[[2]int{u, v}], last: &lastEvent}
-			cv := &countingConn{Conn: b, mu: &mu, counts: linkCounts[[2]int{v, u}], last: &lastEvent}
-			mu.Unlock()
-			lid := uint64(op + 1)
-			nodes[u].AddPeerStream(pubsub.PeerLinkTuple{PeerID: keys[v].id, LinkID: lid}, true, &fakeMS{conn: cu, pid: keys[v].id})
-			nodes[v].AddPeerStream(pubsub.PeerLinkTuple{PeerID: keys[u].id, LinkID: lid}, false, &fakeMS{conn: cv, pid: keys[u].id})
+		if op < len(m.links) {
+			linkUp(m.links[op])
 			return
 		}
-		s := m.subs[op-len(m.edges)]
+		s := m.subs[op-len(m.links)]
 		v, ch := s[0], s[1]
 		sub, err := nodes[v].AddSubscription(ctx, keys[v].priv, "ch"+strconv.Itoa(ch))
 		if err != nil {
@@ -258,73 +408,27 @@ func runMesh(m *mesh, keys []keyInfo) {
 	for i := 0; i < m.early; i++ {
 		doSetup(m.order[i])
 	}
+	var crashed atomic.Value
 	for _, fs := range nodes {
 		fs := fs
-		go func() { _ = fs.Execute(ctx) }()
+		go func() {
+			defer func() {
+				if r := recover(); r != nil {
+					crashed.Store(fmt.Sprint(r))
+				}
+			}()
+			_ = fs.Execute(ctx)
+		}()
 	}
 	for i := m.early; i < len(m.order); i++ {
 		doSetup(m.order[i])
 	}
-
-	// wait until every subscription is announced over every link
-	announced := waitFor(8*time.Second, 2*time.Millisecond, func() bool {
-		for u := 0; u < n; u++ {
-			s := nodes[u].VerifSnapshot()
-			if s.IncSessions != 0 || len(s.Pending) != 0 {
-				return false
-			}
-			for _, e := range m.edges {
-				var v int
-				switch u {
-				case e[0]:
-					v = e[1]
-				case e[1]:
-					v = e[0]
-				default:
-					continue
-				}
-				for ch := 0; ch < 2; ch++ {
-					if !m.isSub(v, ch) {
-						continue
-					}
-					found := false
-					for _, t := range s.PeerChannels["ch"+strconv.Itoa(ch)] {
-						if t.PeerID == keys[v].id {
-							found = true
-						}
-					}
-					if !found {
-						return false
-					}
-				}
-			}
-		}
-		return true
-	})
-	if !announced {
+	if !waitAnnounced() {
 		m.problem = "subscriptions were not announced over all links within 8s"
 		return
 	}
 
-	for i, p := range m.pubs {
-		origin, ch := p[0], p[1]
-		data := []byte(fmt.Sprintf("pub%d.", i))
-		if err := nodes[origin].Publish(ctx, "ch"+strconv.Itoa(ch), keys[origin].priv, data); err != nil {
-			m.problem = "publish failed: " + err.Error()
-			return
-		}
-		reach := m.reachable(origin, ch)
-		// wait for the expected deliveries, then for silence
-		waitFor(6*time.Second, time.Millisecond, func() bool {
-			mu.Lock()
-			defer mu.Unlock()
-			for v := 0; v < n; v++ {
-				if reach[v] && m.isSub(v, ch) && handed[[2]int{i, v}] == 0 {
-					return false
-				}
-			}
-			return true
-		})
+	quiet := func() {
 		waitFor(3*time.Second, 2*time.Millisecond, func() bool {
 			for _, fs := range nodes {
 				if fs.VerifSnapshot().PublishQueue != 0 {
@@ -332,10 +436,62 @@ func runMesh(m *mesh, keys []keyInfo) {
 				}
 			}
 			mu.Lock()
-			quiet := time.Since(lastEvent) > 40*time.Millisecond
+			q := time.Since(lastEvent) > 40*time.Millisecond
 			mu.Unlock()
-			return quiet
+			return q
 		})
+	}
+	for _, ev := range m.evs {
+		switch ev.kind {
+		case "down":
+			c := conns[ev.c]
+			_ = c[0].Close()
+			_ = c[1].Close()
+			delete(up, ev.c)
+			// the property speaks about the mesh after it has stabilised: both sessions have ended
+			ok := waitFor(5*time.Second, time.Millisecond, func() bool {
+				return !hasTuple(ev.a, ev.b, ev.c) && !hasTuple(ev.b, ev.a, ev.c)
+			})
+			if !ok {
+				m.problem = "the sessions of a closed link did not end within 5s"
+				return
+			}
+			time.Sleep(5 * time.Millisecond)
+		case "up":
+			linkUp([3]int{ev.a, ev.b, ev.c})
+			if !waitAnnounced() {
+				m.problem = "subscriptions were not announced over a new link within 8s"
+				return
+			}
+		case "pub":
+			i := len(m.pubs)
+			origin, ch := ev.a, ev.b
+			m.pubs = append(m.pubs, [2]int{origin, ch})
+			cur := upList()
+			m.upAt = append(m.upAt, cur)
+			data := []byte(fmt.Sprintf("pub%d.", i))
+			if err := nodes[origin].Publish(ctx, "ch"+strconv.Itoa(ch), keys[origin].priv, data); err != nil {
+				m.problem = "publish failed: " + err.Error()
+				return
+			}
+			reach := m.reachable(cur, origin, ch)
+			// wait for the expected deliveries (bounded), then for silence
+			waitFor(4*time.Second, time.Millisecond, func() bool {
+				mu.Lock()
+				defer mu.Unlock()
+				for v := 0; v < n; v++ {
+					if reach[v] && m.isSub(v, ch) && handed[[2]int{i, v}] == 0 {
+						return false
+					}
+				}
+				return true
+			})
+			quiet()
+		}
+		if c := crashed.Load(); c != nil {
+			m.problem = "Execute panicked: " + c.(string)
+			return
+		}
 	}
 	// everything of every publish is counted at the very end (late duplicates included)
 	time.Sleep(30 * time.Millisecond)
@@ -347,17 +503,19 @@ func runMesh(m *mesh, keys []keyInfo) {
 			row[v] = handed[[2]int{i, v}]
 		}
 		m.handed = append(m.handed, row)
-		var w [][3]int
+		var w [][4]int
 		for lk, cnt := range linkCounts {
 			if cnt[i] > 0 {
-				w = append(w, [3]int{lk[0], lk[1], cnt[i]})
+				w = append(w, [4]int{lk[0], lk[1], lk[2], cnt[i]})
 			}
 		}
 		sort.Slice(w, func(a, b int) bool {
-			if w[a][0] != w[b][0] {
-				return w[a][0] < w[b][0]
+			for k := 0; k < 3; k++ {
+				if w[a][k] != w[b][k] {
+					return w[a][k] < w[b][k]
+				}
 			}
-			return w[a][1] < w[b][1]
+			return false
 		})
 		m.wire = append(m.wire, w)
 	}
@@ -371,10 +529,18 @@ func pairList(l [][2]int) string {
 	return hx.List(items)
 }
 
+func tripleList(l [][3]int) string {
+	items := make([]string, len(l))
+	for i, p := range l {
+		items[i] = "(" + hx.Nat(p[0]) + ", " + hx.Nat(p[1]) + ", " + hx.Nat(p[2]) + ")"
+	}
+	return hx.List(items)
+}
+
 func c28(c *hx.Ctx) {
 	c.Type = "c28_case"
 	c.Agree = "c28_agree"
-	c.Rule = "meshes of 3-6 real FloodSub nodes (Execute running) wired by net.Pipe: lines, stars, rings, trees, random connected graphs; random subscriber subsets on two channels; links and subscriptions established in random order, partly before Execute starts; 2-4 publishes from subscribers (sometimes from a non-subscriber); observed per publish: handler invocations per node and packets per directed link; non-trivial = distinct mesh with a delivery to a node other than the publisher"
+	c.Rule = "meshes of 3-6 real FloodSub nodes (Execute running) wired by net.Pipe: lines, stars, rings, trees, random connected graphs, half of them with 1-2 parallel links (same two nodes, different link ids); random subscriber subsets on two channels; links and subscriptions established in random order, partly before Execute starts; histories of 3-8 events: publishes (from subscribers, sometimes from a non-subscriber), a link closed (preferably one of a parallel pair, also cycle links and bridges) followed by a publish from either end, a link (re-)established (same tuple again, or a new link) followed by a publish; observed per publish: handler invocations per node and packets per directed link; non-trivial = distinct mesh with a delivery to a node other than the publisher"
 	keys := genKeys(c.Rng, 6)
 	nm := c.N
 	meshes := make([]*mesh, nm)
@@ -383,11 +549,28 @@ func c28(c *hx.Ctx) {
 	}
 	parallel(nm, 12, func(i int) { runMesh(meshes[i], keys) })
 	for _, m := range meshes {
-		desc := map[string]any{"kind": m.kind, "n": m.n, "edges": m.edges, "subs": m.subs, "pubs": m.pubs,
-			"setup_order": m.order, "setup_before_execute": m.early, "handed": m.handed, "wire": m.wire}
+		evS := []string{}
+		var evT []string
+		downs := 0
+		for _, e := range m.evs {
+			evS = append(evS, e.String())
+			evT = append(evT, e.term())
+			if e.kind == "down" {
+				downs++
+			}
+		}
+		desc := map[string]any{"kind": m.kind, "n": m.n, "links(u,v,id)": m.links, "subs(node,ch)": m.subs, "events": evS,
+			"setup_order": m.order, "setup_before_execute": m.early, "handed": m.handed, "wire(u,v,id,count)": m.wire}
 		c.Class(m.kind + "/" + strconv.Itoa(m.n))
+		if downs > 0 {
+			c.Class("with-link-down")
+		}
 		if m.problem != "" {
-			c.Failf("c28-harness-timeout", desc, "%s", m.problem)
+			key := "c28-harness-timeout"
+			if strings.HasPrefix(m.problem, "Execute panicked") {
+				key = "c28-execute-panic"
+			}
+			c.Failf(key, desc, "%s", m.problem)
 			continue
 		}
 		var handedT, wireT []string
@@ -395,16 +578,17 @@ func c28(c *hx.Ctx) {
 			handedT = append(handedT, hx.NatList(m.handed[i]))
 			var w []string
 			for _, e := range m.wire[i] {
-				w = append(w, "("+hx.Nat(e[0])+", "+hx.Nat(e[1])+", "+hx.Nat(e[2])+")")
+				w = append(w, "("+hx.Nat(e[0])+", "+hx.Nat(e[1])+", "+hx.Nat(e[2])+", "+hx.Nat(e[3])+")")
 			}
 			wireT = append(wireT, hx.List(w))
 		}
-		c.Case(hx.App("Mesh28", hx.Nat(m.n), pairList(m.edges), pairList(m.subs), pairList(m.pubs), hx.List(handedT), hx.List(wireT)), desc)
-		// ---- direct oracle ----
+		c.Case(hx.App("Mesh28", hx.Nat(m.n), tripleList(m.links), pairList(m.subs), hx.List(evT), hx.List(handedT), hx.List(wireT)), desc)
+		// ---- direct oracle, straight from the property text ----
 		nontriv := false
 		for i, p := range m.pubs {
 			origin, ch := p[0], p[1]
-			reach := m.reachable(origin, ch)
+			links := m.upAt[i]
+			reach := m.reachable(links, origin, ch)
 			for v := 0; v < m.n; v++ {
 				got := m.handed[i][v]
 				want := 0
@@ -414,7 +598,7 @@ func c28(c *hx.Ctx) {
 				if got > 1 {
 					c.Failf("c28-duplicate-delivery", desc, "publish %d: node %d was handed the message %d times", i, v, got)
 				} else if got < want {
-					c.Failf("c28-not-delivered", desc, "publish %d: subscriber %d is reachable through subscribers and was not handed the message", i, v)
+					c.Failf("c28-not-delivered", desc, "publish %d (from %d on channel %d): subscriber %d is reachable through subscribers over the links that are up %v and was not handed the message", i, origin, ch, v, links)
 				} else if got > want {
 					c.Failf("c28-unexpected-delivery", desc, "publish %d: node %d was handed a message it should not get", i, v)
 				}
@@ -422,14 +606,18 @@ func c28(c *hx.Ctx) {
 					nontriv = true
 				}
 			}
-			dir := map[[2]int]int{}
+			isUp := map[int]bool{}
+			for _, l := range links {
+				isUp[l[2]] = true
+			}
+			sent := map[[3]int]int{}
 			for _, e := range m.wire[i] {
-				dir[[2]int{e[0], e[1]}] = e[2]
+				sent[[3]int{e[0], e[1], e[2]}] = e[3]
 				if e[1] == origin {
 					c.Failf("c28-echo-origin", desc, "publish %d: node %d sent the message back to its publisher %d", i, e[0], origin)
 				}
-				if e[2] > 1 {
-					c.Failf("c28-link-duplicate", desc, "publish %d: %d copies on link %d->%d", i, e[2], e[0], e[1])
+				if e[3] > 1 {
+					c.Failf("c28-link-duplicate", desc, "publish %d: %d copies on link %d->%d (id %d)", i, e[3], e[0], e[1], e[2])
 				}
 				if !reach[e[0]] {
 					c.Failf("c28-forward-by-unreached", desc, "publish %d: node %d forwarded a message it should never have accepted", i, e[0])
@@ -437,34 +625,55 @@ func c28(c *hx.Ctx) {
 				if !m.isSub(e[1], ch) {
 					c.Failf("c28-sent-to-non-subscriber", desc, "publish %d: sent to %d which does not subscribe", i, e[1])
 				}
+				if !isUp[e[2]] {
+					c.Failf("c28-sent-on-closed-link", desc, "publish %d: written on link %d which had been closed", i, e[2])
+				}
 			}
-			// general graphs: a holder other than the origin leaves out exactly its previous hop
-			// (which wrote to it); if it left out nobody, its previous hop must be the origin
-			adj := m.adj()
+			// a holder other than the origin leaves out exactly the links to one peer, its previous hop
+			// (which wrote to it); if it left out nothing, its previous hop must be the origin
 			for u := 0; u < m.n; u++ {
 				if u == origin || !reach[u] || m.handed[i][u] == 0 {
 					continue
 				}
-				missing := 0
-				for _, v := range adj[u] {
-					if v != origin && m.isSub(v, ch) && dir[[2]int{u, v}] == 0 {
-						missing++
+				missingPeers := map[int]bool{}
+				for _, l := range links {
+					for _, d := range [][2]int{{l[0], l[1]}, {l[1], l[0]}} {
+						if d[0] == u && d[1] != origin && m.isSub(d[1], ch) && sent[[3]int{u, d[1], l[2]}] == 0 {
+							missingPeers[d[1]] = true
+						}
 					}
 				}
-				if missing == 0 && dir[[2]int{origin, u}] == 0 {
-					c.Failf("c28-echo-prevhop", desc, "publish %d: node %d wrote the message to every announced neighbour, including the one it got it from", i, u)
-				}
-			}
-			if m.acyclic() {
-				for k, v := range dir {
-					if v > 0 && dir[[2]int{k[1], k[0]}] > 0 {
-						c.Failf("c28-echo-prevhop", desc, "publish %d: on the tree link %d-%d the message went both ways", i, k[0], k[1])
+				fromPeer := func(w int) bool {
+					for k, v := range sent {
+						if k[0] == w && k[1] == u && v > 0 {
+							return true
+						}
 					}
+					return false
+				}
+				switch len(missingPeers) {
+				case 0:
+					if !fromPeer(origin) {
+						c.Failf("c28-echo-prevhop", desc, "publish %d: node %d wrote the message to every announced neighbour, including the one it got it from", i, u)
+					}
+				case 1:
+					for w := range missingPeers {
+						for k, v := range sent {
+							if k[0] == u && k[1] == w && v > 0 {
+								c.Failf("c28-echo-prevhop", desc, "publish %d: node %d wrote to %d on link %d but left out another link to the same peer", i, u, w, k[2])
+							}
+						}
+						if !fromPeer(w) {
+							c.Failf("c28-not-forwarded", desc, "publish %d: node %d did not forward to announced subscriber %d although it did not get the message from it", i, u, w)
+						}
+					}
+				default:
+					c.Failf("c28-not-forwarded", desc, "publish %d: node %d left out several announced subscribers %v", i, u, missingPeers)
 				}
 			}
 		}
 		if nontriv {
-			c.Nontrivial(fmt.Sprint(m.kind, m.n, m.edges, m.subs, m.pubs))
+			c.Nontrivial(fmt.Sprint(m.kind, m.n, m.links, m.subs, evS))
 		}
 	}
 }
